@@ -1,5 +1,5 @@
 //! LD_PRELOAD shim in front of getrandom(2): the harness decides what the OS randomness source answers.
-//! KV_RNG_MODE = "count" | "fail-from" | "eintr-at" | "short" | "eagain-at"; KV_RNG_K = k (1-based, calls with len > 0);
+//! KV_RNG_MODE = "count" | "fail-from" | "eintr-at" | "short" | "eagain-at" | "first-hex" (KV_RNG_HEX); KV_RNG_K = k (1-based, calls with len > 0);
 //! KV_RNG_LOG = path that receives one byte per call with len > 0 (so the harness learns how many calls a run makes).
 //! Also blocks the /dev/urandom and /dev/random fallback when the mode is "fail-from" (open of those paths fails once
 //! the k-th call has been reached), so a persistent failure of the source cannot be bypassed silently.
@@ -53,6 +53,27 @@ pub unsafe extern "C" fn getrandom(buf: *mut libc::c_void, len: libc::size_t, fl
         b"eagain-at" if n == k => {
             set_errno(libc::EAGAIN);
             -1
+        }
+        // "first-hex": the k-th call (len > 0) is answered with the bytes of KV_RNG_HEX (cyclically) instead of random ones --
+        // the value a generated key takes is an answer of the environment like any other
+        b"first-hex" if n == k => {
+            let hexs = env(b"KV_RNG_HEX\0").unwrap_or(b"00");
+            let nib = |c: u8| -> u8 {
+                match c {
+                    b'0'..=b'9' => c - b'0',
+                    b'a'..=b'f' => c - b'a' + 10,
+                    b'A'..=b'F' => c - b'A' + 10,
+                    _ => 0,
+                }
+            };
+            let nbytes = (hexs.len() / 2).max(1);
+            let out = buf as *mut u8;
+            for i in 0..len {
+                let j = (i % nbytes) * 2;
+                let v = if j + 1 < hexs.len() { (nib(hexs[j]) << 4) | nib(hexs[j + 1]) } else { 0 };
+                *out.add(i) = v;
+            }
+            len as libc::ssize_t
         }
         b"short" => libc::syscall(libc::SYS_getrandom, buf, 1usize, flags) as libc::ssize_t,
         b"short-at" if n == k => libc::syscall(libc::SYS_getrandom, buf, 1usize, flags) as libc::ssize_t,
